@@ -32,10 +32,14 @@ type s16 struct {
 	idx    int
 }
 
+// tyEnum: the field is declared with the IDL enum type Color; its Thrift type is I32, or I64 under ParseEnumAsInt64
+const tyEnum = thrift.Type(200)
+
 type f16 struct {
 	ID      int
 	Req     int // 0 default, 1 required, 2 optional
 	Ty      thrift.Type
+	EnumDef bool // the default is an enum identifier (Color.BLUE = 3): its encoding follows the field's own type
 	Sub     *s16
 	HasDef  bool
 	DefIDL  string // IDL literal
@@ -46,7 +50,7 @@ type f16 struct {
 }
 
 var c16IDs = []int{1, 63, 64, 65, 255, 256, 257, 4000}
-var c16Scalars = []thrift.Type{thrift.BOOL, thrift.I32, thrift.I64, thrift.STRING, thrift.LIST, thrift.MAP}
+var c16Scalars = []thrift.Type{thrift.BOOL, thrift.I32, thrift.I64, thrift.STRING, thrift.LIST, thrift.MAP, thrift.I16, thrift.I08, tyEnum, thrift.I64}
 
 type g16 struct {
 	r       *rng
@@ -99,12 +103,65 @@ func (g *g16) genStruct(depth int) *s16 {
 					f.HasDef, f.DefIDL, f.DefBin, f.DefJSON = true, "-9", be64(-9), "-9"
 				case thrift.STRING:
 					f.HasDef, f.DefIDL, f.DefBin, f.DefJSON = true, "\"dflt\"", tstr("dflt"), "\"dflt\""
+				case thrift.I16:
+					f.HasDef, f.DefIDL, f.DefBin, f.DefJSON = true, "300", []byte{1, 44}, "300"
+				case thrift.I08:
+					f.HasDef, f.DefIDL, f.DefBin, f.DefJSON = true, "5", []byte{5}, "5"
+				case tyEnum:
+					f.HasDef, f.EnumDef, f.DefIDL, f.DefJSON = true, true, "Color.GREEN", "2"
+				}
+				// an enum identifier as the default of an integer field (legal IDL): `2: i64 L = Color.BLUE`
+				if (f.Ty == thrift.I32 || f.Ty == thrift.I64 || f.Ty == thrift.I16 || f.Ty == thrift.I08) && r.chance(40) {
+					f.HasDef, f.EnumDef, f.DefIDL, f.DefJSON = true, true, "Color.BLUE", "3"
 				}
 			}
 		}
 		s.Fields = append(s.Fields, f)
 	}
 	return s
+}
+
+// the Thrift type of the field under the parse options pb (bit 2 = ParseEnumAsInt64)
+func (f *f16) tyFor(pb int) thrift.Type {
+	if f.Ty == tyEnum {
+		if pb&4 != 0 {
+			return thrift.I64
+		}
+		return thrift.I32
+	}
+	return f.Ty
+}
+
+func intBin(t thrift.Type, v int64) []byte {
+	switch t {
+	case thrift.I08:
+		return []byte{byte(v)}
+	case thrift.I16:
+		return []byte{byte(v >> 8), byte(v)}
+	case thrift.I32:
+		return be32(int32(v))
+	}
+	return be64(v)
+}
+
+func (f *f16) defBinFor(pb int) []byte {
+	if f.EnumDef {
+		v := int64(3)
+		if f.DefIDL == "Color.GREEN" {
+			v = 2
+		}
+		return intBin(f.tyFor(pb), v)
+	}
+	return f.DefBin
+}
+
+func (s *s16) hasEnum() bool {
+	for _, f := range s.Fields {
+		if f.Ty == tyEnum || f.EnumDef || (f.Sub != nil && f.Sub.hasEnum()) {
+			return true
+		}
+	}
+	return false
 }
 
 func (f *f16) idlType() string {
@@ -121,13 +178,19 @@ func (f *f16) idlType() string {
 		return "list<i32>"
 	case thrift.MAP:
 		return "map<string,i32>"
+	case thrift.I16:
+		return "i16"
+	case thrift.I08:
+		return "byte"
+	case tyEnum:
+		return "Color"
 	}
 	return f.Sub.Name
 }
 
 func (g *g16) idl(root *s16) string {
 	var sb strings.Builder
-	sb.WriteString("namespace go verif\n")
+	sb.WriteString("namespace go verif\nenum Color { RED = 1, GREEN = 2, BLUE = 3 }\n")
 	for i := len(g.structs) - 1; i >= 0; i-- {
 		s := g.structs[i]
 		sb.WriteString("struct " + s.Name + " {\n")
@@ -149,7 +212,7 @@ func (g *g16) idl(root *s16) string {
 	return sb.String()
 }
 
-func (g *g16) defsFields() []string {
+func (g *g16) defsFields(pb int) []string {
 	out := []string{fi(len(g.structs))}
 	for _, s := range g.structs {
 		out = append(out, fi(len(s.Fields)))
@@ -158,7 +221,7 @@ func (g *g16) defsFields() []string {
 			if f.Sub != nil {
 				sub = f.Sub.idx
 			}
-			out = append(out, fi(f.ID), fi(f.Req), fi(int(f.Ty)), fi(sub), fb(f.HasDef), fx(f.DefBin), fs(f.DefJSON), fs(f.Name), fs(f.Alias))
+			out = append(out, fi(f.ID), fi(f.Req), fi(int(f.tyFor(pb))), fi(sub), fb(f.HasDef), fx(f.defBinFor(pb)), fs(f.DefJSON), fs(f.Name), fs(f.Alias))
 		}
 	}
 	return out
@@ -167,6 +230,7 @@ func (g *g16) defsFields() []string {
 // one member of an input struct instance
 type m16 struct {
 	F     *f16 // nil = unknown member
+	Ty    thrift.Type // the member's Thrift type under the parse options of the case
 	State int  // 1 null, 2 scalar value, 3 struct
 	Bin   []byte
 	JSON  string
@@ -184,6 +248,12 @@ func (g *g16) scalarValue(t thrift.Type) (bin []byte, js string) {
 	case thrift.I32:
 		v := int32(r.intn(5)) // includes 0: a present zero must stay
 		return be32(v), fmt.Sprint(v)
+	case thrift.I16:
+		v := int64(r.intn(3)) * 150
+		return intBin(t, v), fmt.Sprint(v)
+	case thrift.I08:
+		v := int64(r.intn(4))
+		return intBin(t, v), fmt.Sprint(v)
 	case thrift.I64:
 		v := int64(r.intn(3)) * 1234567890123
 		return be64(v), fmt.Sprint(v)
@@ -207,7 +277,7 @@ func (g *g16) scalarValue(t thrift.Type) (bin []byte, js string) {
 }
 
 // mode: 0 random mix, 1 all absent, 2 all present, 3 all null
-func (g *g16) genMembers(s *s16, depth int, mode int, allowNull bool) []*m16 {
+func (g *g16) genMembers(s *s16, depth int, mode int, allowNull bool, pb int) []*m16 {
 	r := g.r
 	var ms []*m16
 	for _, f := range s.Fields {
@@ -230,10 +300,17 @@ func (g *g16) genMembers(s *s16, depth int, mode int, allowNull bool) []*m16 {
 			ms = append(ms, &m16{F: f, State: 1})
 		default:
 			if f.Ty == thrift.STRUCT {
-				ms = append(ms, &m16{F: f, State: 3, Kids: g.genMembers(f.Sub, depth+1, mode, allowNull)})
+				ms = append(ms, &m16{F: f, Ty: thrift.STRUCT, State: 3, Kids: g.genMembers(f.Sub, depth+1, mode, allowNull, pb)})
 			} else {
-				b, j := g.scalarValue(f.Ty)
-				ms = append(ms, &m16{F: f, State: 2, Bin: b, JSON: j})
+				var b []byte
+				var j string
+				if f.Ty == tyEnum {
+					v := int64(1 + r.intn(3))
+					b, j = intBin(f.tyFor(pb), v), fmt.Sprint(v)
+				} else {
+					b, j = g.scalarValue(f.Ty)
+				}
+				ms = append(ms, &m16{F: f, Ty: f.tyFor(pb), State: 2, Bin: b, JSON: j})
 			}
 		}
 	}
@@ -295,7 +372,7 @@ func thriftOf(ms []*m16) []byte {
 			b = append(b, byte(thrift.I32), 0x27, 0x0f) // id 9999: never declared
 			b = append(b, m.Bin...)
 		case m.State == 2:
-			b = append(b, byte(m.F.Ty), byte(m.F.ID>>8), byte(m.F.ID))
+			b = append(b, byte(m.Ty), byte(m.F.ID>>8), byte(m.F.ID))
 			b = append(b, m.Bin...)
 		case m.State == 3:
 			b = append(b, byte(thrift.STRUCT), byte(m.F.ID>>8), byte(m.F.ID))
@@ -355,6 +432,13 @@ func jsonTokens(raw []byte, shape *s16) ([]string, bool) {
 }
 
 func genC16(r *rng, n int) {
+	genC16Structs(r.fork(), n)
+	// requiredness / default handling of cutting below two or more container levels (check 1101 of the cutting model:
+	// missing required target field, zero fill under WriteDefault, unknown fields, inside list<list<S>>, map<string,list<S>>, ...)
+	genC11ThriftMode(r.fork(), n/20, true)
+}
+
+func genC16Structs(r *rng, n int) {
 	ctx := context.Background()
 	perStruct := 4 * 4 * 32
 	ns := n / perStruct
@@ -365,9 +449,12 @@ func genC16(r *rng, n int) {
 		g := &g16{r: r.fork()}
 		root := g.genStruct(0)
 		idl := g.idl(root)
-		defs := g.defsFields()
-		for pb := 0; pb < 4; pb++ {
-			popts := thrift.Options{SetOptionalBitmap: pb&1 != 0, UseDefaultValue: pb&2 != 0}
+		for pb := 0; pb < 8; pb++ {
+			if pb >= 4 && !root.hasEnum() {
+				continue // ParseEnumAsInt64 changes nothing without enum types / enum defaults
+			}
+			defs := g.defsFields(pb)
+			popts := thrift.Options{SetOptionalBitmap: pb&1 != 0, UseDefaultValue: pb&2 != 0, ParseEnumAsInt64: pb&4 != 0}
 			desc, err := parseThrift(idl, popts)
 			if err != nil {
 				die("C16 IDL does not parse: %v\n%s", err, idl)
@@ -378,7 +465,7 @@ func genC16(r *rng, n int) {
 			}
 			for wb := 0; wb < 16; wb++ {
 				copts := conv.Options{WriteRequireField: wb&1 != 0, WriteDefaultField: wb&2 != 0, WriteOptionalField: wb&4 != 0, DisallowUnknownField: wb&8 != 0}
-				for k := 0; k < 2; k++ {
+				for k := 0; k < 2-pb/4; k++ {
 					mode := 0
 					if k == 1 && r.chance(30) {
 						mode = 1 + r.intn(3)
@@ -392,7 +479,7 @@ func genC16(r *rng, n int) {
 						out.emit(check, f...)
 					}
 					// --- j2t, native and portable on the same input text
-					ms := g.genMembers(root, 0, mode, true)
+					ms := g.genMembers(root, 0, mode, true, pb)
 					js := []byte(g.jsonOf(ms))
 					{
 						cv := j2t.NewBinaryConv(copts)
@@ -419,7 +506,7 @@ func genC16(r *rng, n int) {
 						emit(1602, ms, ec, ob, nil)
 					}
 					// --- t2j and MarshalTo on the Thrift encoding of a pattern without nulls
-					ms2 := g.genMembers(root, 0, mode, false)
+					ms2 := g.genMembers(root, 0, mode, false, pb)
 					tb := thriftOf(ms2)
 					{
 						cv := t2j.NewBinaryConv(copts)
